@@ -57,14 +57,17 @@ def run(chk, model: SegmentModel = None, rules=None):
         r01_3_declared_is_enforced(chk, m)
     if want("R01.4"):
         r01_4_accepted_lengths(chk, m)
-    if want("R01.5"):
-        r01_5_segments(chk, m)
     if want("R01.6"):
         r01_6_attribute_byte(chk, m)
-    if want("R01.7"):
-        r01_7_visible_record(chk, m)
-    if want("R01.8"):
-        r01_8_tiling(chk, m)
+    if m.error is None:
+        if want("R01.5"):
+            r01_5_segments(chk, m)
+        if want("R01.7"):
+            r01_7_visible_record(chk, m)
+        if want("R01.8"):
+            r01_8_tiling(chk, m)
+    if m.error is not None and not chk.violations():
+        raise m.error
 
 
 # ---------------------------------------------------------------------------------------------------- R01.1
@@ -446,71 +449,71 @@ def r01_6_attribute_byte(chk, m):
 
 # ---------------------------------------------------------------------------------------------------- R01.7
 def r01_7_visible_record(chk, m):
-    ix = chk.ix
-    it = Interp(ix)
+    """Obligations on every visible record the record loop hands to the output buffer (the loop is interpreted as it
+    is written, with the segmenter inlined), for all S and all accepted vrl."""
     f = m.vr_builder
-    # how the loop passes the yielded pair on: positional (segment, size)
-    loop = m.record_loop[1]
-    tnames = [n.id for n in ast.walk(loop.target) if isinstance(n, ast.Name)]
-    call = m.vr_call
-    argmap = [norm(a) for a in call.args]
-    chk.require(argmap == tnames and not call.keywords, "R01.7", "vr-args-are-the-yielded-pair",
-                f"visible record builder is called with {argmap}, the segmenter yields {tnames}",
-                f"{m.record_loop[0].module.relpath}:{call.lineno}")
     st0, fields = m.writer_fields[0]
     fmt = fields.get("_fmt_version")
     ok_fmt = isinstance(fmt, SeqV) and [p[0] for p in fmt.pieces] == ["pack:>B", "pack:>B"] \
         and [int(p[2][0].const) for p in fmt.pieces] == [255, 1]
     chk.require(ok_fmt, "R01.7", "format-version-FF01", "visible record format version bytes are not FF 01",
                 m.writer_init.where)
-    seen = 0
-    exact_raise = False
-    pending = None
+    failed_exact: set = set()
+    pending: dict = {}
     order = sorted(range(len(m.yields)), key=lambda i: (not m.yields[i]["exact"], i))
+    seen = 0
     for k in order:
         y = m.yields[k]
-        parts = segment_parts(y)
-        if parts is None:
-            continue
-        size, head, sl, pad, seq = parts
-        st = State()
-        for c in y["cons"]:
-            st.cons.append(c)
-        st._model = None
-        w = st.new_obj(m.writer_cls, tag="writer", fields=dict(fields))
-        body = SeqV("bytes", seq.length, [("segment", seq.length, k)])
-        outs = it.call_function(f, [w, body, IntV(size)], {}, st, f.node)
+        cons = y["cons"]
+        vr = y["vr"]
         tag = ("exact" if y["exact"] else "any-iteration") + f":{k}"
-        for o in outs:
-            if o.kind == "raise":
-                if y["exact"]:
-                    exact_raise = True
-                    chk.fail("R01.7", f"vr-never-raises:{tag}",
-                             f"visible record builder raises {o.exc} at {o.where[0]}", o.where[0],
-                             witness=SegmentModel.witness(o.st.cons))
-                elif not exact_raise:
-                    pending = o.where
-            elif o.kind == "val":
-                seen += 1
-                v = o.value
-                good = isinstance(v, SeqV) and len(v.pieces) >= 3 and v.pieces[0][0] == "pack:>H" \
-                    and isinstance(v.pieces[0][2][0], LinExpr) \
-                    and entails(o.st.cons, eq(v.pieces[0][2][0], seq.length + 4)) \
-                    and [p[0] for p in v.pieces[1:3]] == ["pack:>B", "pack:>B"] \
-                    and v.pieces[3:] == body.pieces and entails(o.st.cons, eq(v.length, seq.length + 4))
-                chk.require(good, "R01.7", f"vr-header-and-length:{tag}",
-                            "visible record is not UNORM(len(segment)+4) | FF 01 | segment", f.where)
-                lo = entails(o.st.cons, ge(v.length, 20)) if isinstance(v, SeqV) else False
-                hi = entails(o.st.cons, le(v.length, m.vrl)) if isinstance(v, SeqV) else False
-                ev = _even(o.st.cons, v.length) if isinstance(v, SeqV) else False
-                chk.require(lo and hi and ev, "R01.7", f"vr-length-even-20..vrl:{tag}",
-                            "visible record length is not an even number between 20 and the declared maximum",
-                            f.where, witness=SegmentModel.witness(o.st.cons, [gt(v.length, m.vrl)])
-                            if isinstance(v, SeqV) and not hi else None)
-    if pending is not None and not exact_raise and not chk.violations():
-        raise AnalysisError(f"visible record builder may raise at an arbitrary iteration ({pending}); no exact witness")
-    for q in it.consulted:
-        chk.consulted_functions.add(q)
+        where = y["where"]
+
+        def ob(name, cond, msg, extra, y=y, cons=cons, tag=tag, where=where):
+            if cond:
+                chk.ok("R01.7", f"{name}:{tag}", "", where)
+            elif y["exact"]:
+                failed_exact.add(name)
+                chk.fail("R01.7", f"{name}:{tag}", msg, where, witness=SegmentModel.witness(cons, extra))
+            elif name not in failed_exact:
+                pending.setdefault(name, msg)
+        shape = isinstance(vr, SeqV) and y["vr_header"] is not None and y["value"] is not None \
+            and [p[0] for p in y["vr_header"]] == ["pack:>H", "pack:>B", "pack:>B"]
+        ob("vr-shape", shape, "what reaches the buffer is not UNORM length | 2 version bytes | segment", [])
+        if not shape:
+            continue
+        seen += 1
+        seg = y["value"].items[0]
+        hdr = y["vr_header"]
+        ob("vr-length-field==len(segment)+4", isinstance(hdr[0][2][0], LinExpr)
+           and entails(cons, eq(hdr[0][2][0], seg.length + 4)) and entails(cons, eq(vr.length, seg.length + 4)),
+           "visible record length field is not len(segment) + 4", [])
+        ver = [int(p[2][0].const) if isinstance(p[2][0], LinExpr) and p[2][0].is_const() else None for p in hdr[1:3]]
+        ob("vr-version-FF01", ver == [255, 1], f"visible record version bytes are {ver}", [])
+        lo = entails(cons, ge(vr.length, 20))
+        hi = entails(cons, le(vr.length, m.vrl))
+        ob("vr-length-even-20..vrl", lo and hi and _even(cons, vr.length),
+           "visible record length is not an even number between 20 and the declared maximum",
+           [gt(vr.length, m.vrl)] if not hi else ([lt(vr.length, 20)] if not lo else []))
+        sz = y.get("size_arg")
+        ob("buffer-told-the-true-size", sz is None or isinstance(sz, type(None)) or sz.__class__.__name__ == "NoneV"
+           or (isinstance(sz, IntV) and entails(cons, eq(sz.e, vr.length))),
+           "the size passed to the output buffer differs from the length of the visible record", [])
+    # the builder's own raise must be unreachable (also C15 R15.1)
+    for o in m.raises:
+        if o.where and o.where[2].endswith(f.name):
+            exact = not any(t == ("loop", "inductive") for t in o.st.trace)
+            if exact:
+                failed_exact.add("vr-never-raises")
+                chk.fail("R01.7", f"vr-never-raises:{o.where[1][:40]}",
+                         f"visible record builder raises {o.exc} for a segment the segmenter produces", o.where[0],
+                         witness=SegmentModel.witness(o.st.cons))
+            elif "vr-never-raises" not in failed_exact:
+                pending.setdefault("vr-never-raises", f"builder may raise at {o.where[0]}")
+    for name, msg in pending.items():
+        if name not in failed_exact and not chk.violations():
+            raise AnalysisError(f"obligation {name} is not discharged at an arbitrary loop iteration and has no exact "
+                                f"witness within the unrolled prefix: {msg}")
     chk.floor("visible record paths", seen, 4)
 
 
@@ -518,26 +521,50 @@ def r01_7_visible_record(chk, m):
 def r01_8_tiling(chk, m):
     ix = chk.ix
     f, loop = m.record_loop
-    sc = Scope(ix, f)
-    # inside the segment loop: exactly one statement, which passes VR-builder(result) to add_bytes once
-    body = loop.body
-    calls = [n for st in body for n in ast.walk(st) if isinstance(n, ast.Call)]
-    vr_calls = [n for n in calls if m.vr_builder in ix.resolve_call(n, sc)[0]]
+    # semantic: on every interpreted path each segment the generator hands over is followed by exactly one visible
+    # record carrying exactly that segment, before the next segment is produced
+    n_pairs = 0
+    bad = None
+    for o in m.seg_outs:
+        ev = [e for e in o.st.events if e[0] in ("segment", "vr-out")]
+        i = 0
+        while i < len(ev):
+            if ev[i][0] == "segment":
+                nxt = ev[i + 1] if i + 1 < len(ev) else None
+                seg = ev[i][2]
+                if nxt is None:
+                    if o.kind in ("val", "loop-iteration"):
+                        bad = ("a segment is produced but never handed to the output buffer", ev[i][1])
+                    i += 1
+                    continue
+                if nxt[0] != "vr-out":
+                    bad = ("a segment is dropped: the next segment is produced before it was written", ev[i][1])
+                    i += 1
+                    continue
+                vr = nxt[2]
+                same = isinstance(vr, SeqV) and isinstance(seg, TupleV) and isinstance(seg.items[0], SeqV) \
+                    and vr.pieces[3:] == seg.items[0].pieces
+                if not same:
+                    bad = ("the visible record does not carry exactly the segment just produced", nxt[1])
+                n_pairs += 1
+                i += 2
+                if i < len(ev) and ev[i][0] == "vr-out" and ev[i][2] is vr:
+                    bad = ("the same visible record is handed to the buffer twice", ev[i][1])
+            else:
+                i += 1
+    chk.require(bad is None, "R01.8", "one-visible-record-per-segment",
+                bad[0] if bad else "", bad[1] if bad else f"{f.module.relpath}:{loop.lineno}",
+                detail_ok=f"{n_pairs} (segment, visible record) pairs matched on the interpreted paths")
+    chk.floor("segment/visible-record pairs", n_pairs, 4)
     buf_cls = ix.get_class("BufferedOutput")
     add = buf_cls.lookup("add_bytes")
-    add_calls = [n for n in calls if add in ix.resolve_call(n, sc)[0]]
-    ok = len(vr_calls) == 1 and len(add_calls) == 1 and len(body) == 1 and add_calls[0].args \
-        and add_calls[0].args[0] is vr_calls[0] and len(add_calls[0].args) == 1 and not add_calls[0].keywords
-    chk.require(ok, "R01.8", "one-visible-record-per-segment",
-                "inside the segment loop the segment is not wrapped by exactly one visible record that is handed "
-                "exactly once (without an explicit size) to the output buffer", f"{f.module.relpath}:{loop.lineno}")
-    # no other caller of add_bytes
     callers = chk.cg.callers_of(add)
-    chk.require(all(s.caller is f for s in callers) and len(callers) == 1, "R01.8", "single-producer-for-the-buffer",
-                f"add_bytes is called from {[s.caller.short for s in callers]}", add.where)
+    chk.require(all(s.caller is f for s in callers) and len(callers) >= 1, "R01.8", "single-producer-for-the-buffer",
+                f"add_bytes is called from {sorted({s.caller.short for s in callers})}", add.where)
     # the final drain follows the loop on every normal path
-    g = CFG(f.node)
-    drain = buf_cls.lookup("pass_bytes_to_writer")
-    dn = g.nodes_where(lambda s: _calls(ix, sc, s, drain))
-    chk.require(bool(dn) and g.must_pass_through(dn, ENTRY, EXIT, exceptional=False), "R01.8", "final-drain",
-                "the output buffer is not drained on every normal path out of the record writer", f.where)
+    complete = [o for o in m.seg_outs if o.kind == "val"]
+    ok = bool(complete) and all(o.st.events and [e for e in o.st.events if e[0] in ("vr-out", "drain")][-1][0] == "drain"
+                                for o in complete)
+    chk.require(ok, "R01.8", "final-drain",
+                "the output buffer is not drained after the last record on every normal path out of the record writer",
+                f.where)
